@@ -2,7 +2,7 @@
 # tools/confirm_seed2.sh <Cxx> <a|b> <dest suffix c|d>: confirm a round-2 seed (made against HEAD) in its worktree and copy to /verif/seeded/<Cxx>-<suffix>/
 id=$1; v=$2; sfx=$3
 export GOFLAGS=-mod=mod GOPROXY=off
-wt=/tmp/wt2/$id; src=/tmp/wt2/out/$id/$v
+wt=/tmp/wt2/$id; src=${SRC_ROOT:-/tmp/wt2/out}/$id/$v
 cd "$wt" || exit 2
 git checkout -q -- . ; git clean -fdq
 place=$(head -1 $src/demo_test.go | sed -n 's#.*place in: *\([^ ]*\).*#\1#p')
@@ -24,7 +24,7 @@ if [ "$suite_ok" = yes ] && [ $with -ne 0 ] && [ $without -eq 0 ]; then
 import json,sys
 m=json.load(open(sys.argv[1]))
 m['demo_placement']=sys.argv[3]
-m['round']=2
+m["round"]=int(__import__("os").environ.get("SEED_ROUND","2"))
 m['confirmed_by_me']={'base_commit':sys.argv[4],'suite_with_change':'all packages ok (go test -vet=off -count=1 ./...)','demo_with_change':'FAIL','demo_without_change':'PASS'}
 json.dump(m,open(sys.argv[2],'w'),indent=1)
 PY
